@@ -513,4 +513,12 @@ def sopAcceptsTypes (ct : Int) (built : List (Option Int)) : Bool :=
     | none => true
     | some t => t == ct)
 
+/-- … and accepts a PARSED group (no `_graphic_data`) only when what the group knows does not contradict the instance: the
+coordinate type it learned from the instance it was parsed with (`Group.known`) and a stored common z (3-D only).  A group
+parsed on its own without a common z knows nothing and is accepted (open finding). -/
+def sopAcceptsParsed {α : Type} (ct : Int) (gs : List (Group α)) : Bool :=
+  gs.all (fun g => match sopKnownTypeCheck ct g.known g.enc.commonZ.isSome with
+    | .ok _ => true
+    | .error _ => false)
+
 end HdVerif.Ann
